@@ -18,7 +18,7 @@ for d in sorted(glob.glob(root + "/C*-seed*")):
     ran = ["tools/confirm_seed.sh %s (scratch worktree: demo without the change, git apply, go build ./..., demo with the change, repository suite with the change)" % name,
            "tools/seedtest.sh %s %s quick (the property's check against a scratch worktree with the change and a scratch copy of /verif)" % (name, name.split("-")[0])]
     meta["property"] = name.split("-")[0]
-    meta["origin"] = "written by an independent sub-agent from the property text only (round %d)" % (1 if name[-1] in "12" else 2)
+    meta["origin"] = "written by an independent sub-agent from the property text only (round %d)" % {"1": 1, "2": 1, "3": 2, "4": 2}.get(name[-1], 3)
     meta["what_was_run"] = ran
     if conf:
         meta["confirmation"] = conf
@@ -29,7 +29,7 @@ for d in sorted(glob.glob(root + "/C*-seed*")):
     suite = c.get("suite_exit_with_change", -1)
     rows.append((name, meta.get("needs", "")[:160].replace("\n", " ").replace("|", "/"),
                  "yes" if c.get("demo_passes_without_change") and c.get("demo_fails_with_change") and c.get("builds_with_change") else "NO",
-                 {0: "passes", -1: "not run"}.get(suite, "exit %s (%s)" % (suite, c.get("suite_failures_other_than_the_known_timing_test", ""))),
+                 "passes" if suite == 0 else ("not run" if suite == -1 else ("passes (only the known timing test fails)" if not c.get("suite_failures_other_than_the_known_timing_test", "").strip() else "FAILS: " + c.get("suite_failures_other_than_the_known_timing_test", ""))),
                  matrix.get(name, {}).get("verdict", "?"), matrix.get(name, {}).get("first_violation", "")))
 with open(root + "/RESULTS.md", "w") as f:
     f.write("# Seeded changes and what the checks say about them\n\n")
